@@ -80,10 +80,10 @@ fn case_strategy(single_fault: bool) -> BoxedStrategy<Case> {
 /// Cause labels used in signatures: `<family>|<file suffix>|<detail>`, one candidate per effective
 /// fault (plus a combined `multi` label).
 ///
-/// family = `undetectable_at_tail` when the faulted file ends up as a well-formed but incomplete
-/// image of truth whose *tail* is valid: rolled back to an earlier version, cut at a record
-/// boundary, or damaged/deleted and then extended by later appends. `detectable` otherwise (the
-/// damage is at the tail or the file is gone when it is read).
+/// family = `stale_image` (rolled back to an earlier version / cut at a record boundary: a
+/// well-formed earlier image), `damaged_then_appended` (deleted, torn or garbage, then extended by
+/// later appends: valid tail, damaged or missing head) or `detectable` (the damage is at the tail or
+/// the file is gone when it is read).
 fn causes_of(applied: &[Applied], appended_after: bool, restarted: bool) -> Vec<String> {
     let eff: Vec<&Applied> = applied.iter().filter(|a| a.changed).collect();
     let tail = format!(
@@ -97,10 +97,19 @@ fn causes_of(applied: &[Applied], appended_after: bool, restarted: bool) -> Vec<
     let mut out: Vec<String> = eff
         .iter()
         .map(|a| {
-            let undetectable = appended_after || a.stale_prefix || a.kind == "rollback";
+            // three families: a well-formed EARLIER image of the file (rolled back / cut at a
+            // record boundary); a file damaged or deleted and then extended by later appends (valid
+            // tail, damaged or missing head); damage that is visible at the tail when read
+            let family = if a.stale_prefix || a.kind == "rollback" {
+                "stale_image"
+            } else if appended_after {
+                "damaged_then_appended"
+            } else {
+                "detectable"
+            };
             format!(
                 "{}|{}|{}{}{}",
-                if undetectable { "undetectable_at_tail" } else { "detectable" },
+                family,
                 a.suffix,
                 a.kind,
                 if a.stale_prefix { "(record_boundary)" } else { "" },
@@ -113,20 +122,37 @@ fn causes_of(applied: &[Applied], appended_after: bool, restarted: bool) -> Vec<
     out
 }
 
-/// The label a divergence is reported under: in a multi-fault case a divergence is explained by
-/// a listed finding if ANY of its effective faults individually falls under a listed
-/// (family, file) combination; otherwise it is reported under the combined label.
-fn pick_cause(kind: &str, causes: &[String], known: &KnownFindings) -> String {
+/// Signature of a divergence: `<kind>|<family>|<file>|<read>|<detail>`. In a multi-fault case a
+/// divergence is explained by a listed finding only if one of its effective faults individually
+/// falls under a listed (family, file, read) combination; otherwise it is reported under the
+/// combined `multi` label.
+fn sig_for(kind: &str, read: &str, causes: &[String], known: &KnownFindings) -> String {
+    let split = |c: &str| -> (String, String) {
+        let mut it = c.splitn(3, '|');
+        let fam = it.next().unwrap_or("");
+        let file = it.next().unwrap_or("");
+        let detail = it.next().unwrap_or("");
+        (format!("{fam}|{file}"), detail.to_string())
+    };
     if causes.len() == 1 {
-        return causes[0].clone();
+        let (ff, detail) = split(&causes[0]);
+        return format!("{kind}|{ff}|{read}|{detail}");
     }
     for c in causes {
-        if known.matches(&format!("{kind}|{c}|")).is_some() {
-            return c.clone();
+        let (ff, detail) = split(c);
+        let sig = format!("{kind}|{ff}|{read}|{detail}");
+        if known.matches(&sig).is_some() {
+            return sig;
         }
     }
-    let family = if causes.iter().any(|c| c.starts_with("undetectable")) { "undetectable_at_tail" } else { "detectable" };
-    format!("{family}|multi|{}", causes.join(","))
+    let family = if causes.iter().any(|c| c.starts_with("stale_image")) {
+        "stale_image"
+    } else if causes.iter().any(|c| c.starts_with("damaged_then_appended")) {
+        "damaged_then_appended"
+    } else {
+        "detectable"
+    };
+    format!("{kind}|{family}|multi|{read}|{}", causes.join(","))
 }
 
 fn loc_of(p: &str) -> String {
@@ -135,18 +161,17 @@ fn loc_of(p: &str) -> String {
 
 /// Compare the three surfaces at one observation point. Returns false when truth is unusable.
 fn observe(it: &Interp, p: &Params, causes: &[String], known: &KnownFindings, point: &str, rep: &mut CaseReport) -> bool {
-    let cause = &pick_cause("cache_divergence", causes, known);
-    let cause_truth = &pick_cause("truth_corrupted", causes, known);
+    let cause = &causes.join(",");
     let sb = &it.sandbox;
     let values = match sb.truth_values() {
         Ok(v) => v,
         Err(e) => {
-            rep.fail(format!("truth_unreadable|{cause_truth}"), json!({"point": point, "error": e}));
+            rep.fail(sig_for("truth_unreadable", "log", causes, known), json!({"point": point, "error": e}));
             return false;
         }
     };
     if let Err(e) = check_stream_numbering(&values) {
-        rep.fail(format!("truth_corrupted|{cause_truth}"), json!({"point": point, "error": e}));
+        rep.fail(sig_for("truth_corrupted", "log", causes, known), json!({"point": point, "error": e}));
         return false;
     }
     // B: byte copy without the caches, taken before A's reads can rebuild anything
@@ -207,7 +232,7 @@ fn observe(it: &Interp, p: &Params, causes: &[String], known: &KnownFindings, po
                         );
                     } else if av != mv {
                         rep.fail(
-                            format!("cache_divergence|{cause}|{read}"),
+                            sig_for("cache_divergence", read, causes, known),
                             json!({"point": point, "thread": tid, "key": key, "A": av.brief(), "M": mv.brief()}),
                         );
                     }
@@ -216,7 +241,7 @@ fn observe(it: &Interp, p: &Params, causes: &[String], known: &KnownFindings, po
                     // compile: model-free differential
                     if *av != bv {
                         rep.fail(
-                            format!("cache_divergence|{cause}|{read}"),
+                            sig_for("cache_divergence", read, causes, known),
                             json!({"point": point, "thread": tid, "key": key, "A": av.brief(), "B": bv.brief()}),
                         );
                     }
